@@ -52,7 +52,9 @@ Seeds == UNION {Paths(k) : k \in 0..MaxRound}
 Pos(m) == CHOOSE i \in 1..Len(Order) : Order[i] = m
 RankOf(seed, m) == (Pos(m) - 1 + SumSeq(seed)) % Len(Order)
 RK == [s \in Seeds |-> [m \in Miner |-> RankOf(s, m)]]
-OwnName(r, seed, prev) == ToString(<<"own", r, seed, prev>>)
+RECURSIVE Digits(_)
+Digits(s) == IF s = <<>> THEN "" ELSE ToString(Head(s)) \o Digits(Tail(s))
+OwnName(r, seed, prev) == "o" \o ToString(r) \o "s" \o Digits(seed) \o "on" \o prev
 Env0 == [rk |-> RK, own |-> <<>>, mrg |-> {}]
 
 BaseRound == [NewRnd EXCEPT !.seed = <<9>>, !.phase = Share, !.nb = <<Genesis>>, !.best = Genesis, !.fin = 2, !.proposed = {Genesis}]
@@ -64,7 +66,7 @@ Node0 == [cur |-> 0, lfb |-> Genesis, lfbr |-> 0, tk |-> 0, rtc |-> 0,
 
 Init ==
   /\ n = StartNextRound(Node0, Env0, 0)          \* the node starts on its latest finalized block
-  /\ B = (Genesis :> [r |-> 0, gen |-> Order[1], seed |-> <<9>>, prev |-> NoBlock, ptk |-> {}, valid |-> TRUE, pvalid |-> TRUE])
+  /\ B = (Genesis :> [r |-> 0, gen |-> Order[1], seed |-> <<9>>, prev |-> NoBlock, ptk |-> {}, valid |-> TRUE, pvalid |-> TRUE, v |-> 0])
   /\ cnt = [blocks |-> 0, deliver |-> 0, timeouts |-> 0]
 
 -----------------------------------------------------------------------------
@@ -90,36 +92,36 @@ Msgs == {m \in VrfMsgs : m.sh.good \/ m.from = Liar} \cup PbMsgs \cup {m \in TkM
 
 \* a proposal is made: any peer (generator or not), any seed of the round, on any known block of the previous
 \* round, a second one by the same generator (v), with forged previous-block tickets, with a bad signature
+ProposalSeeds(r) == UNION {{SeedFor(ps, t) : t \in 0..MaxToc} : ps \in PrevSeeds(r)} \cap Seeds
+ProposeWith(m, r, p, kind, seed) ==
+  /\ cnt.blocks < MaxBlocks
+  /\ B[p].r = r - 1
+  /\ LET b == "p" \o ToString(cnt.blocks + 1) IN
+     B' = B @@ (b :> [r |-> r, gen |-> m, seed |-> seed, prev |-> p, ptk |-> Peer, valid |-> kind[3], pvalid |-> ~kind[2], v |-> kind[1]])
+  /\ cnt' = [cnt EXCEPT !.blocks = @ + 1]
+  /\ UNCHANGED n
 EnvPropose ==
   \E m \in Peer, r \in NearRounds, p \in DOMAIN B, kind \in ProposalKinds :
-   \E seed \in UNION {{SeedFor(ps, t) : t \in 0..MaxToc} : ps \in PrevSeeds(r)} \cap Seeds :
-    /\ cnt.blocks < MaxBlocks
-    /\ B[p].r = r - 1
-    /\ LET v == kind[1]  forged == kind[2]  valid == kind[3]
-           b == ToString(<<m, r, seed, p, v, forged, valid>>) IN
-       /\ b \notin DOMAIN B
-       /\ B' = B @@ (b :> [r |-> r, gen |-> m, seed |-> seed, prev |-> p, ptk |-> Peer, valid |-> valid, pvalid |-> ~forged])
-    /\ cnt' = [cnt EXCEPT !.blocks = @ + 1]
-    /\ UNCHANGED n
+    \E seed \in ProposalSeeds(r) : ProposeWith(m, r, p, kind, seed)
 
 \* the sharders announce a finalized round
-EnvLFBTicket ==
-  \E r \in 1..MaxTicket :
-    /\ r > n.tk
-    /\ n' = [n EXCEPT !.tk = r]
-    /\ UNCHANGED <<B, cnt>>
+TicketWith(r) ==
+  /\ r > n.tk
+  /\ n' = [n EXCEPT !.tk = r]
+  /\ UNCHANGED <<B, cnt>>
+EnvLFBTicket == \E r \in 1..MaxTicket : TicketWith(r)
 
 \* the round worker's timer (miner/worker.go RoundWorker): the current round, or the next one when the current
 \* one is being finalized
-EnvTimeout ==
-  \E r \in DOMAIN n.R :
-    /\ cnt.timeouts < MaxTimeouts
-    /\ r > 0
-    /\ \/ (r = n.cur /\ n.R[r].fin = 0)
-       \/ (r = n.cur + 1 /\ n.R[n.cur].fin # 0)
-    /\ n' = HandleRoundTimeout(n, Env0, r)
-    /\ cnt' = [cnt EXCEPT !.timeouts = @ + 1]
-    /\ UNCHANGED B
+TimeoutWith(r) ==
+  /\ cnt.timeouts < MaxTimeouts
+  /\ r > 0
+  /\ \/ (r = n.cur /\ n.R[r].fin = 0)
+     \/ (r = n.cur + 1 /\ n.R[n.cur].fin # 0)
+  /\ n' = HandleRoundTimeout(n, Env0, r)
+  /\ cnt' = [cnt EXCEPT !.timeouts = @ + 1]
+  /\ UNCHANGED B
+EnvTimeout == \E r \in DOMAIN n.R : TimeoutWith(r)
 
 -----------------------------------------------------------------------------
 (* a message reaches its receipt handler (miner/m_handler.go)                *)
@@ -128,29 +130,29 @@ Filter(m) ==
     [] m.k = "pb" -> FilterPB(n, m.b, B)
     [] m.k = "tk" -> FilterTK(n, m.r, m.b, m.from, B)
     [] m.k = "nz" -> FilterNZ(n, m.r, m.b)
-Recv ==
-  \E m \in Msgs :
-    /\ cnt.deliver < MaxDeliver /\ Cardinality(n.mq) < MaxQueue
-    /\ LET n1 == IF m.k = "tk" THEN RecvTKEffect(n, m.r, m.b, B) ELSE n IN
-       n' = IF Filter(m) THEN [n1 EXCEPT !.mq = @ \cup {m}] ELSE n1
-    /\ n' # n                                            \* a delivery without effect is a stuttering step
-    /\ cnt' = [cnt EXCEPT !.deliver = @ + 1]
-    /\ UNCHANGED B
+RecvWith(m) ==
+  /\ cnt.deliver < MaxDeliver /\ Cardinality(n.mq) < MaxQueue
+  /\ LET n1 == IF m.k = "tk" THEN RecvTKEffect(n, m.r, m.b, B) ELSE n IN
+     n' = IF Filter(m) THEN [n1 EXCEPT !.mq = @ \cup {m}] ELSE n1
+  /\ n' # n                                              \* a delivery without effect is a stuttering step
+  /\ cnt' = [cnt EXCEPT !.deliver = @ + 1]
+  /\ UNCHANGED B
+Recv == \E m \in Msgs : RecvWith(m)
 
 (* the message worker dispatches a message (any order); the two outcomes of the race of processVerifyBlock *)
-Handle ==
-  \E m \in n.mq, merge \in BOOLEAN :
-    /\ merge => /\ m.k = "pb"
-                 /\ (MergeUnverified \/ (Has(n, B[m.b].prev) /\ n.K[B[m.b].prev].notar))
-    /\ LET n0 == [n EXCEPT !.mq = @ \ {m}]
-           E == [Env0 EXCEPT !.mrg = IF merge THEN {m.b} ELSE {}] IN
-       n' = CASE m.k = "vrf" -> HandleVRFShare(n0, E, m.r, m.sh)
-              [] m.k = "pb" -> ProcessVerifyBlock(n0, E, m.b, B)
-              [] m.k = "tk" -> HandleTicket(n0, E, m.r, m.b, m.from, m.valid, B)
-              [] m.k = "nz" -> IF NzQueued(n0, m.b)
-                                 THEN NotarizationProcess(HandleNotarization(n0, m.b), E, m.r, m.b, m.tks, m.bad, B)
-                                 ELSE n0
-    /\ UNCHANGED <<B, cnt>>
+HandleWith(m, merge) ==
+  /\ merge => /\ m.k = "pb"
+               /\ (MergeUnverified \/ (Has(n, B[m.b].prev) /\ n.K[B[m.b].prev].notar))
+  /\ LET n0 == [n EXCEPT !.mq = @ \ {m}]
+         E == [Env0 EXCEPT !.mrg = IF merge THEN {m.b} ELSE {}] IN
+     n' = CASE m.k = "vrf" -> HandleVRFShare(n0, E, m.r, m.sh)
+            [] m.k = "pb" -> ProcessVerifyBlock(n0, E, m.b, B)
+            [] m.k = "tk" -> HandleTicket(n0, E, m.r, m.b, m.from, m.valid, B)
+            [] m.k = "nz" -> IF NzQueued(n0, m.b)
+                               THEN NotarizationProcess(HandleNotarization(n0, m.b), E, m.r, m.b, m.tks, m.bad, B)
+                               ELSE n0
+  /\ UNCHANGED <<B, cnt>>
+Handle == \E m \in n.mq, merge \in BOOLEAN : HandleWith(m, merge)
 
 -----------------------------------------------------------------------------
 (* the node's goroutines, one step each                                      *)
@@ -162,7 +164,7 @@ Generate ==
         key == <<r, n.R[r].seed, pb>>
         b == OwnName(r, n.R[r].seed, pb)
         B2 == IF pb = NoBlock \/ b \in DOMAIN B THEN B
-              ELSE B @@ (b :> [r |-> r, gen |-> Self, seed |-> n.R[r].seed, prev |-> pb, ptk |-> n.K[pb].tk, valid |-> TRUE, pvalid |-> TRUE])
+              ELSE B @@ (b :> [r |-> r, gen |-> Self, seed |-> n.R[r].seed, prev |-> pb, ptk |-> n.K[pb].tk, valid |-> TRUE, pvalid |-> TRUE, v |-> 0])
         E == [Env0 EXCEPT !.own = IF pb = NoBlock THEN <<>> ELSE (key :> b)] IN
     /\ n' = GenStep(n, E, r, B2)
     /\ B' = IF Has(n', b) THEN B2 ELSE B
